@@ -30,9 +30,23 @@ func (x *X) stmtText(f *Frame, s ast.Stmt) string {
 
 func (x *X) stmtWithGhost(f *Frame, st *State, s ast.Stmt) *State {
 	if f.spec != nil && len(f.spec.Ghost) > 0 && f.top {
-		switch s.(type) {
-		case *ast.BlockStmt, *ast.IfStmt, *ast.ForStmt, *ast.RangeStmt, *ast.SwitchStmt, *ast.TypeSwitchStmt, *ast.LabeledStmt:
-			// anchors are simple statements; compound statements match only on their header line
+		switch n := s.(type) {
+		case *ast.IfStmt:
+			// an if statement is anchored by its header: "if <init>; <cond>"
+			txt := "if "
+			if n.Init != nil {
+				txt += nodeText(x.prog.fset, n.Init) + "; "
+			}
+			txt += nodeText(x.prog.fset, n.Cond)
+			txt = normStmt(txt)
+			x.runGhost(f, st, "before", txt, s.Pos())
+			st = x.stmt(f, st, s)
+			if st != nil {
+				x.runGhost(f, st, "after", txt, n.Body.Lbrace)
+			}
+			return st
+		case *ast.BlockStmt, *ast.ForStmt, *ast.RangeStmt, *ast.SwitchStmt, *ast.TypeSwitchStmt, *ast.LabeledStmt:
+			// loops are anchored by ordinal (before/after loop N); other compound statements are not anchors
 		default:
 			txt := x.stmtText(f, s)
 			x.runGhost(f, st, "before", txt, s.Pos())
